@@ -26,7 +26,15 @@ import (
 	"time"
 )
 
-const VerifDir = "/verif"
+// VerifDir is the directory the driver was started in (run.sh changes into its own
+// directory first): /verif normally, a snapshot of it under `vp run`.
+var VerifDir = func() string {
+	d, err := os.Getwd()
+	if err != nil {
+		return "/verif"
+	}
+	return d
+}()
 
 type Finding struct {
 	Index  int    `json:"index"`
